@@ -234,6 +234,16 @@ def step (st : St) (j : Json) : St × List String :=
                             isEC := jBool lj "ec", onCurve := jBool lj "oncurve", vmErr := jBool lj "vmerr" }
       let decs := match b64Decode d.id with | .ok b => hx b | .err _ => "err" | .panic p => "panic:" ++ p
       s!"jwk {(resolveJwkClass (jwkOrderOf Nuts.Facts.C18.jwkRefusals) d.method d.id (fun _ => lib)).str} dec={decs}"
+    | "rtime" =>
+      -- resolution at a point in time on the SQL rows (absent resolve time = the far future bound of `Latest`)
+      let dd : DID := { method := sWeb, id := d.id }
+      let rows := (enum (jArr j "vers")).map fun (i, v) => ({ did := dd.str, version := i, updatedAt := jInt v "t", active := jBool v "a" } : DocRow)
+      let tAt : Int := if jHas j "at" then jInt j "at" else 4000000000
+      let upd := match sqlLatest rows dd.str tAt with | some r => r.updatedAt | none => 0
+      match sqlResolveLocal rows tAt (jBool j "allow") dd with
+      | .ok r => s!"rtime ok:{hx r.docID}:{upd}:{r.deactivated}"
+      | .err e => "rtime err:" ++ e
+      | .panic p => "rtime panic:" ++ p
     | "chain" =>
       let outs := (enum (jStrs j "outs")).map fun (i, o) => rOutOf i o
       let (o, n) := chainResolve outs
